@@ -122,6 +122,9 @@ def confirm(prop, path):
 
 def write_evidence(ctx, level, nviol):
     cov = dict(ctx.cov)
+    if cov.get("cap_hit"):
+        # a capped run is not called exhaustive: what was fully covered below the cap is listed under "caps"
+        cov["exhaustive"] = False
     cov["samples"] = ctx.samples[:8] if ctx.samples else cov.get("samples", [])
     ev = {
         "property_id": ctx.prop,
@@ -147,6 +150,8 @@ def run_check(prop, tier, seed, jobs):
     mod = importlib.import_module("mc.props." + prop)
     ctx = Ctx(prop, tier, seed, jobs)
     mod.run(ctx)
+    if ctx.cov.get("cap_hit"):
+        ctx.cov["exhaustive"] = False  # (a capped run is not called exhaustive; see coverage.caps)
     known = load_known(prop)
     by_sig = {}
     for v in ctx.violations:
